@@ -118,13 +118,21 @@ def opt(val):
     return [0] if val is None else [1, val]
 
 
+def digest(data):
+    ''' Same as Model.TcpclSess.digest. '''
+    acc = 7
+    for octet in bytes(data):
+        acc = (acc * 31 + octet) % 4294967296
+    return [len(data), acc]
+
+
 def render_snapshot(snap):
     ''' Same layout as Model.TcpclSess.render_state. '''
     flags = [STATE_TAG.get(snap['state'], 0), int(snap['in_conn']), int(snap['in_sess']), int(snap['in_term']),
              int(snap['closed']), int(snap['rx_alive'] or snap['closed'])]
     return [
         flags,
-        list(snap['rx_buf']), list(snap['msg_tx_buf']), list(snap['conn_tx_buf']),
+        digest(snap['rx_buf']), digest(snap['msg_tx_buf']), digest(snap['conn_tx_buf']),
         list(snap['n_src']),
         [snap['seg_size'], snap['keepalive']],
         opt(snap['ka_due']), opt(snap['idle_due']),
@@ -159,6 +167,7 @@ class Runner(object):
         self.snaps = {'A': [], 'B': []}
         self.opres = []
         self.applied = []   # every driver op, for exact replay
+        self.escaped_ops = []  # (index into applied, op, exception class) for ops whose callback/method raised
         self.cfg_a = dict(cfg_a or {})
         self.cfg_b = dict(cfg_b or {})
 
@@ -231,6 +240,8 @@ class Runner(object):
         else:
             raise ValueError(oper)
         self.opres.append((oper[0], e, res))
+        if res is not None and res.get('exc'):
+            self.escaped_ops.append((len(self.applied) - 1, oper, res['exc']))
         return res
 
     def model_term(self, e):
